@@ -20,6 +20,9 @@ EXPLICIT = {
     "libs-prepend-nodelim": [("build", "prepend", b"LIBRARY_PATH", b"/pre"), ("launch", "append", b"LD_LIBRARY_PATH", b"/post"), ("all", "prepend", b"PKG_CONFIG_PATH", b"/pc")],
     # a delimiter file whose appends live in OTHER env directories: it stays where it is across read -> write cycles
     "lone-delim": [("all", "delim", b"LD_LIBRARY_PATH", b";"), ("build", "append", b"LD_LIBRARY_PATH", b"/b"), ("launch", "prepend", b"LD_LIBRARY_PATH", b"/l"), ("launch", "delim", b"PATH", b":")],
+    # an empty delimiter is a delimiter: the file exists, reads back, and is written back
+    "empty-delim": [("all", "prepend", b"PATH", b"/opt/tool/bin:"), ("all", "delim", b"PATH", b""), ("launch", "append", b"LD_LIBRARY_PATH", b"/x"), ("launch", "delim", b"LD_LIBRARY_PATH", b""),
+                    ("build", "delim", b"CPATH", b"")],
     "cpath-default-build+proc": [("build", "default", b"CPATH", b"/dflt"), ("process:web", "override", b"PATH", b"/procpath")],
 }
 STARTS = [{}, {b"PATH": b"/usr/bin", b"LD_LIBRARY_PATH": b"", b"CPATH": b"c"},
@@ -81,12 +84,25 @@ def run_case(mon, base, idx, dname, assignment, xname, sh):
             d = os.path.join(os.path.dirname(real), b"x", b"..", b".", dname)
         case["path_style"] = ["plain", "symlinked-ancestor", "dot-segments", "plain"][style]
         entries = EXPLICIT[xname]
-        if entries:
+        if entries and idx % 3 == 2:
+            # the env files as an earlier build (or another tool) left them: laid down by hand in the spec's layout, not through libcnb
+            for rel, content in envmodel.expected_tree(entries).items():
+                p = os.path.join(real, rel)
+                os.makedirs(os.path.dirname(p), exist_ok=True)
+                with open(p, "wb") as f:
+                    f.write(content)
+            case["env_files"] = "laid down by hand"
+        elif entries:
             rep = mon.call({"op": "write", "dir": hx(d), "entries": enc_entries(entries)})
             if "err" in rep:
                 sh.violation("write:error", "write_to_layer_dir failed: %s" % rep["detail"], case)
                 return
         before = vp.snapshot(d)
+        want_files = {k: v for k, v in envmodel.expected_tree(entries).items()}
+        got_files = {k: e[2] for k, e in before.items() if e[0] == "f" and k.split(b"/")[0] in (b"env", b"env.build", b"env.launch")}
+        if got_files != want_files:
+            sh.violation("write:layout", "the env files after writing %s are %r, the spec layout is %r" % (xname, sorted(got_files), sorted(want_files)), case)
+            return
         # starting environments that already mention the layer's own directories (a second application, an earlier buildpack
         # having exported them): the implicit entries are prepended all the same
         own = [{b"PATH": b"/usr/bin:" + os.path.join(d, b"bin"), b"LD_LIBRARY_PATH": os.path.join(d, b"lib"), b"LIBRARY_PATH": os.path.join(d, b"lib") + b":/x",
